@@ -100,6 +100,15 @@ func placementAfterCatchUp(rec *mon.Recorder, c int) {
 		cl.TriggerSnapshot(n, uuid.Nil, 0)
 	}
 	time.Sleep(150 * time.Millisecond)
+	// node 1, which every member has an address for, leads the membership group when the member returns
+	cl.WaitFor(15*time.Second, func() bool {
+		if cl.Nodes[0].ZeroLeader() == 1 {
+			return true
+		}
+		cl.Guard(2*time.Second, func() { cl.Nodes[0].In.ZeroGroup.VerifCampaign() })
+		time.Sleep(100 * time.Millisecond)
+		return cl.Nodes[0].ZeroLeader() == 1
+	})
 	lag.NoRejoin = c%2 == 0 // started with -join false: what it knows comes from its own log and the leader's snapshot only
 	if err := cl.StartNode(lag.Idx); err != nil {
 		rec.Inconclusive(fmt.Sprintf("%s: node %d did not come back: %v", desc, lag.Id, err))
